@@ -27,6 +27,7 @@ type Ctx struct {
 	notes    map[string]bool   // assumptions / unmodelled callees, for the evidence
 	fnName   string
 	unsupported []string
+	products []product
 }
 
 type Obligation struct {
